@@ -45,7 +45,7 @@ fn c19_cls(white: bool, kind: u8) {
         2 => assert!(matches!(got, ChessMove::EnPassant(_))),
         _ => assert!(matches!(got, ChessMove::Castle(_))),
     }
-    kani::cover!(true, "classified");
+    crate::vcover!(true, "classified");
     core::mem::forget(text);
     core::mem::forget(board);
 }
